@@ -552,6 +552,41 @@ impl Real {
                     }
                 }
             }
+            ["ser", h] => {
+                // serialise an object: announced length, equality after a round trip; the model is given the bytes
+                macro_rules! ser {
+                    ($ty:literal, $obj:expr, $t:ty) => {{
+                        let o = $obj;
+                        let b = o.serialize().unwrap().to_vec();
+                        let len_ok = o.length() == b.len();
+                        let rt = match <$t>::deserialize(&b) { Ok(x) => &x == o, Err(_) => false };
+                        self.model_line = Some(format!("wire {} {} x{}", $ty, crate::util::CFG, hex(&b)));
+                        if len_ok { format!("ok len={} rt={}", b.len(), rt as u8) } else { format!("ok len={}!={} rt={}", o.length(), b.len(), rt as u8) }
+                    }};
+                }
+                if let Some(i) = handle('M', h) {
+                    match self.msks.get(i) { Some(Some(m)) => ser!("msk", m, MasterSecretKey), _ => { self.model_line = Some("noop".into()); "bad-op".into() } }
+                } else if let Some(i) = handle('K', h) {
+                    match self.mpks.get(i) { Some(Some(m)) => ser!("mpk", m, MasterPublicKey), _ => { self.model_line = Some("noop".into()); "bad-op".into() } }
+                } else if let Some(i) = handle('U', h) {
+                    match self.usks.get(i) { Some(Some(m)) => ser!("usk", m, UserSecretKey), _ => { self.model_line = Some("noop".into()); "bad-op".into() } }
+                } else if let Some(i) = handle('E', h) {
+                    match self.encs.get(i) { Some(Some((m, _))) => ser!("enc", m, XEnc), _ => { self.model_line = Some("noop".into()); "bad-op".into() } }
+                } else if let Some(i) = handle('H', h) {
+                    match self.hdrs.get(i) { Some(Some((m, _))) => {
+                        // absent and empty metadata are the same value on the wire
+                        let b = m.serialize().unwrap().to_vec();
+                        let len_ok = m.length() == b.len();
+                        let rt = match EncryptedHeader::deserialize(&b) { Ok(x) => x.encapsulation == m.encapsulation && x.encrypted_metadata.clone().unwrap_or_default() == m.encrypted_metadata.clone().unwrap_or_default(), Err(_) => false };
+                        self.model_line = Some(format!("wire hdr {} x{}", crate::util::CFG, hex(&b)));
+                        if len_ok { format!("ok len={} rt={}", b.len(), rt as u8) } else { format!("ok len={}!={} rt={}", m.length(), b.len(), rt as u8) }
+                    } _ => { self.model_line = Some("noop".into()); "bad-op".into() } }
+                } else if let Some(i) = handle('S', h) {
+                    match self.msks.get(i) { Some(Some(m)) => { let s = &m.access_structure; ser!("struct", s, cosmian_cover_crypt::AccessStructure) } _ => { self.model_line = Some("noop".into()); "bad-op".into() } }
+                } else {
+                    "bad-op".into()
+                }
+            }
             ["c08", us, op, rest @ ..] => {
                 // tamper with the serialised form of an issued user key, then ask the real `refresh_usk`
                 // (on copies of the master key, with both flags) whether it accepts the result
